@@ -1171,6 +1171,13 @@ func (x *Exec) evalCalls(st *State, e ast.Expr, env *Env) []*State {
 			walk(v.Y)
 		case *ast.UnaryExpr:
 			walk(v.X)
+			if v.Op == token.ARROW {
+				var next []*State
+				for _, c := range states {
+					next = append(next, x.Effect(c, "RECV", v.Pos(), map[string]string{"chan": x.canonEnv(v.X, env)}))
+				}
+				states = next
+			}
 		case *ast.StarExpr:
 			walk(v.X)
 		case *ast.SelectorExpr:
